@@ -656,6 +656,42 @@ fn run(ctx: &RunCtx) {
     });
     ctx.exhaustive.store(true, std::sync::atomic::Ordering::Relaxed);
 
+    // ---- wide projects: more modules than the one-letter names of the module table can hold
+    const WIDTHS: [usize; 10] = [25, 26, 27, 52, 53, 54, 55, 64, 110, 160];
+    ctx.enumerate("wide", (WIDTHS.len() * 4) as u64, |i, st| {
+        let n = WIDTHS[i as usize / 4];
+        let luau = i % 2 == 1;
+        // a chain nests two calls per module in the bundle; the reference interpreter allows 160 frames
+        let chain = (i / 2) % 2 == 1 && n <= 55;
+        let entry = "src/main.lua".to_string();
+        let mut files = BTreeMap::new();
+        let mut truth = vec![];
+        let mut main = String::new();
+        for k in 1..=n {
+            let path = format!("src/m{}.lua", k);
+            let mut text = String::new();
+            // chain: module k also requires module k + 1 (one long dependency path)
+            if chain && k < n {
+                text.push_str(&format!("local nxt = require(\"./m{}\")\n", k + 1));
+                truth.push(Truth { from: path.clone(), req: format!("./m{}", k + 1), to: Some(format!("src/m{}.lua", k + 1)) });
+            }
+            text.push_str(&format!("emit(\"run\", {})\nreturn {{ id = {}{} }}\n", k, k, if chain && k < n { ", nxt = nxt" } else { "" }));
+            files.insert(path.clone(), text);
+            if !chain || k == 1 {
+                main.push_str(&format!("local m{} = require(\"./m{}\")\nemit(m{}.id)\n", k, k, k));
+                truth.push(Truth { from: entry.clone(), req: format!("./m{}", k), to: Some(path) });
+            }
+        }
+        if chain {
+            main.push_str("local x = m1\nwhile x do emit(\"chain\", x.id) x = x.nxt end\n");
+        }
+        files.insert(entry.clone(), main);
+        let config = bundlegen::config_text(luau, ["\"dense\"", "\"readable\"", "\"retain_lines\""][(i % 3) as usize], i % 5 == 0, &[]);
+        let case = Case { files, entry, config, config_path: None, truth, data: BTreeMap::new() };
+        st.class(&format!("wide:{} modules", n));
+        settle(check_valid(&case), || case.to_json(), Some(hash_str(&case.to_json().to_string())))
+    });
+
     // ---- malformed projects
     ctx.enumerate("malformed", malformed_total(), |i, st| {
         let case = build_malformed(i, lenient_data_names);
